@@ -455,11 +455,10 @@ def kani_job(ctx, res):
 
 
 
-def replay(ctx, res, failure):
-    """seeded native run of the REAL text of crates/cache/src/lib.rs (whole file minus its test module) on a temp directory against an
-    executable form of the view contracts (units/store/replay.rs). veryl_path::atomic_write is taken from crates/path if the tree has it."""
+def native_body(ctx):
+    """NATIVE_RNG + `mod veryl_path` (atomic_write from crates/path if the tree has it) + `mod cache` = the REAL text of crates/cache/src/lib.rs"""
     import os
-    from vp.core import native_search, NATIVE_RNG
+    from vp.core import NATIVE_RNG
     text = ctx.src(L).text
     cut = text.find("#[cfg(test)]\nmod tests")
     if cut > 0:
@@ -468,17 +467,31 @@ def replay(ctx, res, failure):
     aw = None
     pp = os.path.join(ctx.repo, "crates", "path", "src", "lib.rs")
     if os.path.isfile(pp):
-        try:
-            from vp.extract import Src
-            ps = Src(ctx.repo, "crates/path/src/lib.rs")
-            aw = [m for m in re.finditer(r"(?s)#\[cfg\(not\(target_family = \"wasm\"\)\)\]\npub fn atomic_write.*?\n}\n", ps.text)]
-            aw = aw[0].group(0) if aw else None
-        except Exception:
-            aw = None
+        m = re.search(r"(?s)#\[cfg\(not\(target_family = \"wasm\"\)\)\]\npub fn atomic_write.*?\n}\n", open(pp, encoding="utf-8").read())
+        aw = m.group(0) if m else None
     if aw is None:
         aw = "pub fn atomic_write<P: AsRef<Path>>(path: P, contents: &[u8]) -> std::io::Result<()> { std::fs::write(path, contents) }\n"
-    body = (NATIVE_RNG + "\n#[allow(dead_code)]\nmod veryl_path {\n    use std::path::Path;\n" + aw + "}\n"
-            "#[allow(dead_code, unused_imports)]\nmod cache {\n    use super::veryl_path;\n" + text + "}\n" + ctx.unit_file("store", "replay.rs"))
-    return native_search(ctx, "store", "store", body, args=[ctx.seed], timeout=1500,
-                         deps={"blake3": '"1.5"', "log": '"0.4"', "serde": '{ version = "1.0", features = ["derive"] }', "toml": '"1.1.2"',
-                               "fs4": '{ version = "1.1.0", features = ["sync"] }', "tempfile": '"3.20"'})
+    return (NATIVE_RNG + "\n#[allow(dead_code)]\nmod veryl_path {\n    use std::path::Path;\n" + aw + "}\n"
+            "#[allow(dead_code, unused_imports)]\nmod cache {\n    use super::veryl_path;\n" + text + "}\n")
+
+
+NATIVE_DEPS = {"blake3": '"1.5"', "log": '"0.4"', "serde": '{ version = "1.0", features = ["derive"] }', "toml": '"1.1.2"',
+               "fs4": '{ version = "1.1.0", features = ["sync"] }', "tempfile": '"3.20"'}
+
+
+def finding_witness(ctx, res=None):
+    """F-C29-save-failed-write replayed on the real text (not called by the framework; the lead may wire it to known_findings).
+    -> (line, reproduced)"""
+    from vp.core import native_search
+    r = native_search(ctx, "store", "store_finding", native_body(ctx) + ctx.unit_file("store", "finding_witness.rs"), args=[ctx.seed], timeout=900, deps=NATIVE_DEPS)
+    ok = bool(r.get("found_input"))
+    return ("obligation=verus:store:Store::save input-class=manifest-write-fails-while-on_disk_current "
+            "open(key); put(a,h2,..); save() with atomic_write failing; keep(a); save() [skipped]; reopen -> entry(a).hash is the OLD h1", ok)
+
+
+def replay(ctx, res, failure):
+    """seeded native run of the REAL text of crates/cache/src/lib.rs (whole file minus its test module) on a temp directory against an
+    executable form of the view contracts (units/store/replay.rs). veryl_path::atomic_write is taken from crates/path if the tree has it."""
+    from vp.core import native_search
+    body = native_body(ctx) + ctx.unit_file("store", "replay.rs")
+    return native_search(ctx, "store", "store", body, args=[ctx.seed], timeout=1500, deps=NATIVE_DEPS)
